@@ -3,8 +3,17 @@
 From Coq Require Import List NArith ZArith Bool Lia ZifyBool ZifyN ZifyNat.
 From NV Require Import Prelude.Str Prelude.Res Prelude.Utf8 Model.Url Model.Titan Model.ServerProto Spec.ServerTrace.
 Import ListNotations.
+Set Default Proof Using "Type".
 
 (* ---------- generic tactics ---------- *)
+Ltac slia :=
+  repeat match goal with
+         | H : str -> option str |- _ => clear H
+         | H : str -> hres |- _ => clear H
+         | H : str |- _ => clear H
+         | H : option str |- _ => clear H
+         | H : bool |- _ => clear H
+         end; lia.
 Ltac dm :=
   match goal with
   | |- context [match ?x with _ => _ end] => destruct x eqn:?
@@ -80,7 +89,7 @@ Proof. rewrite cancel_timer_eq. cbn. destruct (timer s); discriminate. Qed.
 Lemma take_task_small id (p : list (nat * task_kind)) : (length p <= 1)%nat ->
   take_task id p = (None, p) \/ exists k, p = [(id, k)] /\ take_task id p = (Some k, []).
 Proof.
-  destruct p as [|[i k] [|x p]]; cbn; intro H; [left; reflexivity| |lia].
+  destruct p as [|[i k] [|x p]]; cbn; intro H; [left; reflexivity| |slia].
   destruct (Nat.eqb i id) eqn:E; [|left; reflexivity].
   apply Nat.eqb_eq in E; subst. right. exists k. split; reflexivity.
 Qed.
@@ -121,7 +130,12 @@ Record Ready (s : st) : Prop := {
   r_await : await_titan s = false; r_timer : timer s <> TArmed }.
 
 Lemma Inv_init : Inv init.
-Proof. constructor; cbn; try tauto; try lia; try discriminate. Qed.
+Proof.
+  constructor; cbn; try discriminate; auto.
+  - intro H; exfalso; apply H; reflexivity.
+  - intros [H|[]]; discriminate.
+Qed.
+Ltac pinv := idtac.
 
 Lemma Inv_nopend s : Inv s -> line_rcvd s = false -> pending s = [].
 Proof.
@@ -155,7 +169,7 @@ Lemma Inv_spawn s k : Ready s -> (k = TTitanMw -> titan s <> None /\ has_upload 
 Proof.
   intros [[? ? ? ? ? ? ?] P L A T] K. constructor; cbn; auto.
   - intro; contradiction.
-  - rewrite P; cbn; lia.
+  - rewrite P; cbn; slia.
   - rewrite P. cbn. intros [H|[H|[]]]; [congruence|]. auto.
 Qed.
 
@@ -280,7 +294,7 @@ Proof.
   assert (LA : line_rcvd s = true /\ await_titan s = false) by (apply i_pend0; rewrite P; discriminate).
   assert (T : timer s <> TArmed) by (intro H; destruct (i_armed0 H) as [H1 _]; congruence).
   split.
-  - constructor; cbn; try tauto. constructor; cbn; auto; try lia; try tauto.
+  - constructor; cbn; try tauto. constructor; cbn; auto; try slia; try tauto.
   - intros ->. apply i_titan0. right. rewrite P. cbn. auto.
 Qed.
 
